@@ -306,6 +306,13 @@ func runC05(ctx *Ctx) {
 			}
 		}
 	}
+	if len(pk) > 0 && len(base.Rows) > 0 && r.Intn(4) == 0 {
+		// one row whose key is all empty strings (it sorts first)
+		i := r.Intn(len(base.Rows))
+		for _, p := range pk {
+			base.Rows[i][p] = ""
+		}
+	}
 	nb := 2
 	if r.Intn(4) == 0 {
 		nb = 3
